@@ -1,5 +1,5 @@
 (* C32: lemmas and proofs about Model/Ivf.v *)
-From Coq Require Import String List NArith Bool Lia ZifyBool ZifyNat ZifyN.
+From Coq Require Import String List Arith NArith Bool Lia ZifyBool ZifyNat ZifyN.
 Import ListNotations.
 From Verif Require Import Common.V Common.Base Model.Ivf.
 Open Scope N_scope.
@@ -19,4 +19,491 @@ Proof.
     + replace (8 * N.of_nat (S w)) with (8 + 8 * N.of_nat w) in Hn by lia.
       rewrite N.pow_add_r in Hn. change (2 ^ 8) with 256 in Hn.
       apply N.div_lt_upper_bound; lia.
+Qed.
+
+Lemma le_bytes_2 : forall x, le_bytes 2 x = [x mod 256; (x / 256) mod 256].
+Proof. reflexivity. Qed.
+Lemma le_bytes_4 : forall x,
+  le_bytes 4 x = [x mod 256; (x / 256) mod 256; (x / 256 / 256) mod 256; (x / 256 / 256 / 256) mod 256].
+Proof. reflexivity. Qed.
+
+Lemma le_val_2 : forall x, x < 65536 -> le_val [x mod 256; (x / 256) mod 256] = x.
+Proof. intros x H. rewrite <- le_bytes_2. apply le_roundtrip. exact H. Qed.
+Lemma le_val_4 : forall x, x < 4294967296 ->
+  le_val [x mod 256; (x / 256) mod 256; (x / 256 / 256) mod 256; (x / 256 / 256 / 256) mod 256] = x.
+Proof. intros x H. rewrite <- le_bytes_4. apply le_roundtrip. exact H. Qed.
+
+(* ---------- list slicing ---------- *)
+
+Lemma firstn_app_exact : forall (A : Type) (a b : list A), firstn (length a) (a ++ b) = a.
+Proof.
+  intros A a b. rewrite firstn_app, Nat.sub_diag, firstn_all. cbn. apply app_nil_r.
+Qed.
+Lemma skipn_app_exact : forall (A : Type) (a b : list A), skipn (length a) (a ++ b) = b.
+Proof.
+  intros A a b. rewrite skipn_app, Nat.sub_diag, skipn_all. reflexivity.
+Qed.
+
+Lemma read_full_app : forall a rest,
+  read_full (N.of_nat (length a)) (a ++ rest) = RdOk a rest.
+Proof.
+  intros a rest. unfold read_full.
+  rewrite app_length.
+  replace (N.of_nat (length a) <=? N.of_nat (length a + length rest)) with true
+    by (symmetry; apply N.leb_le; lia).
+  rewrite Nnat.Nat2N.id, firstn_app_exact, skipn_app_exact. reflexivity.
+Qed.
+
+(* ---------- the file as header ++ frame records ---------- *)
+
+Definition frame_record (f : frec) : list N :=
+  frame_header (N.of_nat (length (f_bytes f))) (f_pts f) ++ f_bytes f.
+Definition records (fs : list frec) : list N := flat_map frame_record fs.
+
+Lemma records_app : forall a b, records (a ++ b) = records a ++ records b.
+Proof. intros a b. unfold records. apply flat_map_app. Qed.
+
+(* invariant of the writer: everything written so far is the header followed
+   by one record per logged writeFrame call, and count counts them (mod 2^64) *)
+Definition winv (o : opts) (s : wst) : Prop :=
+  w_out s = ivf_header o header_count_placeholder ++ records (w_log s) /\
+  w_count s = u64 (N.of_nat (length (w_log s))) /\
+  Forall (fun f => f_pts f < 2 ^ 64) (w_log s).
+
+Lemma winv_init : forall o, winv o (init_state o).
+Proof.
+  intros o. unfold winv, init_state, records. cbn [w_out w_log w_count flat_map length].
+  split; [symmetry; apply app_nil_r|]. split; [reflexivity | constructor].
+Qed.
+
+Lemma u64_lt : forall x, u64 x < 2 ^ 64.
+Proof. intros x. unfold u64. apply N.mod_lt. discriminate. Qed.
+
+Lemma u64_succ : forall n, u64 (u64 n + 1) = u64 (n + 1).
+Proof. intros n. unfold u64. rewrite N.add_mod_idemp_l by discriminate. reflexivity. Qed.
+
+Lemma write_frame_inv : forall o s frame t s' st,
+  winv o s -> t < 2 ^ 64 ->
+  write_frame o s frame t = (s', st) -> winv o s'.
+Proof.
+  intros o s frame t s' st (Hout & Hcnt & Hpts) Ht H.
+  unfold write_frame in H.
+  destruct (o_direct o).
+  - injection H as <- <-. unfold winv. cbn [w_out w_log w_count].
+    rewrite records_app, Hout, <- app_assoc.
+    repeat split.
+    + do 2 f_equal. unfold records. cbn [flat_map]. rewrite app_nil_r. reflexivity.
+    + rewrite Hcnt, app_length. cbn [length]. rewrite u64_succ. f_equal. lia.
+    + apply Forall_app. split; [exact Hpts|]. constructor; [exact Ht | constructor].
+  - unfold timestamp_to_pts in H. destruct (o_den o =? 0) eqn:Ed.
+    + injection H as <- <-. unfold winv. auto.
+    + injection H as <- <-. unfold winv. cbn [w_out w_log w_count].
+      rewrite records_app, Hout, <- app_assoc.
+      repeat split.
+      * do 2 f_equal. unfold records. cbn [flat_map]. rewrite app_nil_r. reflexivity.
+      * rewrite Hcnt, app_length. cbn [length]. rewrite u64_succ. f_equal. lia.
+      * apply Forall_app. split; [exact Hpts|]. constructor; [| constructor].
+        cbn [f_pts]. apply N.eqb_neq in Ed.
+        eapply N.le_lt_trans; [apply N.div_le_upper_bound with (q := u64 (t * o_num o)) | apply u64_lt].
+        -- exact Ed.
+        -- nia.
+Qed.
+
+(* ---------- one WriteRTP call, by cases ---------- *)
+
+Definition av1_is_key (p : pkt) : bool :=
+  p_flag p ||
+  match p_payload p with
+  | [] => false
+  | b0 :: _ => N.shiftr (N.land b0 120) 3 =? obu_sequence_header
+  end.
+
+(* the packet's payload is appended to currentFrame *)
+Definition accepts (o : opts) (s : wst) (p : pkt) : bool :=
+  negb (p_err p) &&
+  match o_codec o with
+  | VP8 => match p_payload p with
+           | [] => false
+           | b0 :: _ => (w_seen s || (N.land b0 1 =? 0)) && (negb (is_nil (w_cur s)) || p_start p)
+           end
+  | VP9 => (w_seen s || negb (p_flag p)) && (negb (is_nil (w_cur s)) || p_start p)
+  | AV1 => w_seen s || av1_is_key p
+  end.
+
+Definition first_upd (s : wst) (p : pkt) : wst :=
+  if w_count s =? 0 then set_first s (p_ts p) else s.
+
+Definition time_of (o : opts) (s0 : wst) (p : pkt) : N :=
+  let d := subw 4294967296 (p_ts p) (w_first s0) in
+  if o_direct o then d else u64 (1000 * d) / clock_rate.
+
+Definition prefix_of (c : codec) : list N :=
+  match c with AV1 => av1_delimiter | _ => [] end.
+
+Inductive step_case (o : opts) (s : wst) (p : pkt) (s' : wst) (st : status) : Prop :=
+| SC_empty : p_raw_empty p = true -> s' = s -> st = SOk -> step_case o s p s' st
+| SC_ignored : p_raw_empty p = false -> accepts o (first_upd s p) p = false ->
+    s' = first_upd s p -> st <> SPanic -> step_case o s p s' st
+| SC_kept : p_raw_empty p = false -> accepts o (first_upd s p) p = true ->
+    s' = accept (first_upd s p) p -> st = SOk ->
+    (p_marker p = false \/ (o_codec o <> AV1 /\ w_cur s' = [])) -> step_case o s p s' st
+| SC_flushed : p_raw_empty p = false -> accepts o (first_upd s p) p = true ->
+    p_marker p = true ->
+    (o_codec o <> AV1 -> w_cur (accept (first_upd s p) p) <> []) ->
+    write_frame o (accept (first_upd s p) p)
+                (prefix_of (o_codec o) ++ w_cur (accept (first_upd s p) p))
+                (time_of o (first_upd s p) p) = (s', st) ->
+    step_case o s p s' st.
+
+Lemma is_nil_true : forall l, is_nil l = true -> l = [].
+Proof. intros [|x l] H; [reflexivity | discriminate]. Qed.
+Lemma is_nil_false : forall l, is_nil l = false -> l <> [].
+Proof. intros [|x l] H; [discriminate | discriminate]. Qed.
+
+Lemma write_rtp_cases : forall o s p s' st,
+  write_rtp o s p = (s', st) -> step_case o s p s' st.
+Proof.
+  intros o s p s' st H. unfold write_rtp in H.
+  destruct (p_raw_empty p) eqn:Hre.
+  { injection H as <- <-. apply SC_empty; auto. }
+  fold (first_upd s p) in H.
+  fold (time_of o (first_upd s p) p) in H.
+  destruct (o_codec o) eqn:Hc.
+  - (* VP8 *)
+    unfold write_vp8 in H.
+    destruct (p_err p) eqn:He.
+    { injection H as <- <-. apply SC_ignored; auto; [unfold accepts; rewrite He; reflexivity | discriminate]. }
+    destruct (p_payload p) as [|b0 rest] eqn:Hp.
+    { injection H as <- <-. apply SC_ignored; auto; [unfold accepts; rewrite He, Hc, Hp; reflexivity | discriminate]. }
+    destruct (negb (w_seen (first_upd s p)) && negb (N.land b0 1 =? 0)) eqn:Hg1.
+    { injection H as <- <-. apply SC_ignored; auto; [|discriminate].
+      unfold accepts. rewrite He, Hc, Hp. cbn [negb andb].
+      destruct (w_seen (first_upd s p)), (N.land b0 1 =? 0); cbn in *; try discriminate; reflexivity. }
+    destruct (is_nil (w_cur (first_upd s p)) && negb (p_start p)) eqn:Hg2.
+    { injection H as <- <-. apply SC_ignored; auto; [|discriminate].
+      unfold accepts. rewrite He, Hc, Hp. cbn [negb andb].
+      destruct (is_nil (w_cur (first_upd s p))), (p_start p); cbn in *; try discriminate.
+      apply andb_false_r. }
+    assert (Hacc : accepts o (first_upd s p) p = true).
+    { unfold accepts. rewrite He, Hc, Hp. cbn [negb andb].
+      destruct (w_seen (first_upd s p)), (N.land b0 1 =? 0), (is_nil (w_cur (first_upd s p))), (p_start p); cbn in *; try discriminate; reflexivity. }
+    destruct (negb (p_marker p)) eqn:Hm.
+    { injection H as <- <-. apply SC_kept; auto. left. now destruct (p_marker p). }
+    destruct (is_nil (w_cur (accept (first_upd s p) p))) eqn:Hn.
+    { injection H as <- <-. apply SC_kept; auto. right. split; [congruence|]. now apply is_nil_true. }
+    apply SC_flushed; auto.
+    + now destruct (p_marker p).
+    + intros _. now apply is_nil_false.
+    + rewrite Hc. exact H.
+  - (* VP9 *)
+    unfold write_vp9 in H.
+    destruct (p_err p) eqn:He.
+    { injection H as <- <-. apply SC_ignored; auto; [unfold accepts; rewrite He; reflexivity | discriminate]. }
+    destruct (negb (w_seen (first_upd s p)) && p_flag p) eqn:Hg1.
+    { injection H as <- <-. apply SC_ignored; auto; [|discriminate].
+      unfold accepts. rewrite He, Hc. cbn [negb andb].
+      destruct (w_seen (first_upd s p)), (p_flag p); cbn in *; try discriminate; reflexivity. }
+    destruct (is_nil (w_cur (first_upd s p)) && negb (p_start p)) eqn:Hg2.
+    { injection H as <- <-. apply SC_ignored; auto; [|discriminate].
+      unfold accepts. rewrite He, Hc. cbn [negb andb].
+      destruct (is_nil (w_cur (first_upd s p))), (p_start p); cbn in *; try discriminate.
+      apply andb_false_r. }
+    assert (Hacc : accepts o (first_upd s p) p = true).
+    { unfold accepts. rewrite He, Hc. cbn [negb andb].
+      destruct (w_seen (first_upd s p)), (p_flag p), (is_nil (w_cur (first_upd s p))), (p_start p); cbn in *; try discriminate; reflexivity. }
+    destruct (negb (p_marker p)) eqn:Hm.
+    { injection H as <- <-. apply SC_kept; auto. left. now destruct (p_marker p). }
+    destruct (is_nil (w_cur (accept (first_upd s p) p))) eqn:Hn.
+    { injection H as <- <-. apply SC_kept; auto. right. split; [congruence|]. now apply is_nil_true. }
+    apply SC_flushed; auto.
+    + now destruct (p_marker p).
+    + intros _. now apply is_nil_false.
+    + rewrite Hc. exact H.
+  - (* AV1 *)
+    unfold write_av1 in H. fold (av1_is_key p) in H.
+    destruct (p_err p) eqn:He.
+    { injection H as <- <-. apply SC_ignored; auto; [unfold accepts; rewrite He; reflexivity | discriminate]. }
+    destruct (negb (w_seen (first_upd s p)) && negb (av1_is_key p)) eqn:Hg1.
+    { injection H as <- <-. apply SC_ignored; auto; [|discriminate].
+      unfold accepts. rewrite He, Hc. cbn [negb andb].
+      destruct (w_seen (first_upd s p)), (av1_is_key p); cbn in *; try discriminate; reflexivity. }
+    assert (Hacc : accepts o (first_upd s p) p = true).
+    { unfold accepts. rewrite He, Hc. cbn [negb andb].
+      destruct (w_seen (first_upd s p)), (av1_is_key p); cbn in *; try discriminate; reflexivity. }
+    destruct (negb (p_marker p)) eqn:Hm.
+    { injection H as <- <-. apply SC_kept; auto. left. now destruct (p_marker p). }
+    apply SC_flushed; auto.
+    + now destruct (p_marker p).
+    + rewrite Hc. exact H.
+Qed.
+
+(* ---------- the invariant along a run ---------- *)
+
+Lemma subw_lt : forall m a b, m <> 0 -> subw m a b < m.
+Proof. intros m a b Hm. unfold subw. apply N.mod_lt. exact Hm. Qed.
+
+Lemma time_of_lt : forall o s p, time_of o s p < 2 ^ 64.
+Proof.
+  intros o s p. unfold time_of.
+  pose proof (subw_lt 4294967296 (p_ts p) (w_first s)) as Hd.
+  destruct (o_direct o).
+  - eapply N.lt_trans; [apply Hd; discriminate|]. reflexivity.
+  - eapply N.le_lt_trans; [| apply (u64_lt (1000 * subw 4294967296 (p_ts p) (w_first s)))].
+    apply N.div_le_upper_bound; [discriminate|]. unfold clock_rate. nia.
+Qed.
+
+Lemma winv_first_upd : forall o s p, winv o s -> winv o (first_upd s p).
+Proof. intros o s p H. unfold first_upd. destruct (w_count s =? 0); exact H. Qed.
+
+Lemma winv_accept : forall o s p, winv o s -> winv o (accept s p).
+Proof. intros o s p H. exact H. Qed.
+
+Lemma write_rtp_inv : forall o s p s' st,
+  winv o s -> write_rtp o s p = (s', st) -> winv o s'.
+Proof.
+  intros o s p s' st Hinv H. apply write_rtp_cases in H.
+  destruct H as [_ -> _ | _ _ -> _ | _ _ -> _ _ | _ _ _ _ Hw].
+  - exact Hinv.
+  - now apply winv_first_upd.
+  - now apply winv_accept, winv_first_upd.
+  - eapply write_frame_inv; [| apply time_of_lt | exact Hw].
+    now apply winv_accept, winv_first_upd.
+Qed.
+
+Lemma run_packets_inv : forall o ps s,
+  winv o s -> winv o (fst (run_packets o s ps)).
+Proof.
+  intros o ps. induction ps as [|p rest IH]; intros s Hinv; cbn [run_packets fst].
+  - exact Hinv.
+  - destruct (write_rtp o s p) as [s1 st] eqn:Hw.
+    pose proof (write_rtp_inv o s p s1 st Hinv Hw) as H1.
+    destruct st.
+    + specialize (IH s1 H1). destruct (run_packets o s1 rest). exact IH.
+    + specialize (IH s1 H1). destruct (run_packets o s1 rest). exact IH.
+    + exact H1.
+Qed.
+
+(* no panic when the denominator is non-zero (NewWith refuses zero) *)
+Lemma write_rtp_no_panic : forall o s p,
+  o_den o <> 0 -> snd (write_rtp o s p) <> SPanic.
+Proof.
+  intros o s p Hden. destruct (write_rtp o s p) as [s' st] eqn:H. cbn [snd].
+  apply write_rtp_cases in H.
+  destruct H as [_ _ -> | _ _ _ Hst | _ _ _ -> _ | _ _ _ _ Hw]; try discriminate; try exact Hst.
+  unfold write_frame, timestamp_to_pts in Hw.
+  apply N.eqb_neq in Hden. rewrite Hden in Hw.
+  destruct (o_direct o); injection Hw as _ <-; discriminate.
+Qed.
+
+Lemma run_packets_no_panic : forall o ps s,
+  o_den o <> 0 -> ~ In SPanic (snd (run_packets o s ps)).
+Proof.
+  intros o ps. induction ps as [|p rest IH]; intros s Hden; cbn [run_packets snd].
+  - intros [].
+  - pose proof (write_rtp_no_panic o s p Hden) as Hnp.
+    destruct (write_rtp o s p) as [s1 st] eqn:Hw. cbn [snd] in Hnp.
+    destruct st; try congruence.
+    + specialize (IH s1 Hden). destruct (run_packets o s1 rest) as [s2 sts]. cbn [snd] in *.
+      intros [E | Hin]; [discriminate | auto].
+    + specialize (IH s1 Hden). destruct (run_packets o s1 rest) as [s2 sts]. cbn [snd] in *.
+      intros [E | Hin]; [discriminate | auto].
+Qed.
+
+(* ---------- Close ---------- *)
+
+Definition header_pre (o : opts) : list N :=
+  sig_dkif ++ le_bytes 2 0 ++ le_bytes 2 32 ++ fourcc (o_codec o)
+  ++ le_bytes 2 (o_width o) ++ le_bytes 2 (o_height o)
+  ++ le_bytes 4 (o_den o) ++ le_bytes 4 (o_num o).
+
+Lemma header_split : forall o c,
+  ivf_header o c = header_pre o ++ le_bytes 4 c ++ le_bytes 4 0.
+Proof.
+  intros o c. unfold ivf_header, header_pre. repeat rewrite <- app_assoc. reflexivity.
+Qed.
+
+Lemma fourcc_length : forall c, length (fourcc c) = 4%nat.
+Proof. intros []; reflexivity. Qed.
+
+Lemma header_pre_length : forall o, length (header_pre o) = 24%nat.
+Proof.
+  intros o. unfold header_pre.
+  repeat rewrite app_length. repeat rewrite le_bytes_length. rewrite fourcc_length. reflexivity.
+Qed.
+
+Lemma header_length : forall o c, length (ivf_header o c) = 32%nat.
+Proof.
+  intros o c. rewrite header_split. repeat rewrite app_length.
+  rewrite header_pre_length. repeat rewrite le_bytes_length. reflexivity.
+Qed.
+
+Lemma patch_header : forall o c c' rest,
+  patch (ivf_header o c ++ rest) 24 (le_bytes 4 c') = ivf_header o c' ++ rest.
+Proof.
+  intros o c c' rest. unfold patch. rewrite le_bytes_length.
+  rewrite !header_split. repeat rewrite <- app_assoc.
+  rewrite <- (header_pre_length o) at 1. rewrite firstn_app_exact.
+  f_equal. f_equal.
+  replace (24 + 4)%nat with (length (header_pre o ++ le_bytes 4 c))
+    by (rewrite app_length, header_pre_length, le_bytes_length; reflexivity).
+  rewrite (app_assoc (header_pre o)). rewrite skipn_app_exact. reflexivity.
+Qed.
+
+Definition count_field (seekable : bool) (s : wst) : N :=
+  if seekable then u32 (w_count s) else header_count_placeholder.
+
+Lemma close_shape : forall o seekable s,
+  winv o s -> close seekable s = ivf_header o (count_field seekable s) ++ records (w_log s).
+Proof.
+  intros o seekable s (Hout & _ & _). unfold close, count_field.
+  destruct seekable; [| exact Hout].
+  rewrite Hout. apply patch_header.
+Qed.
+
+(* ---------- reader over a written file ---------- *)
+
+Definition opts_ok (o : opts) : Prop :=
+  o_width o < 65536 /\ o_height o < 65536 /\
+  o_num o < 4294967296 /\ o_den o < 4294967296 /\ o_num o <> 0 /\ o_den o <> 0.
+
+Definition header_read (o : opts) (c : N) : fhdr :=
+  mkFhdr (fourcc (o_codec o)) (o_width o) (o_height o) (o_den o) (o_num o) c 32 0.
+
+Lemma parse_header_written : forall o c rest,
+  opts_ok o -> c < 4294967296 ->
+  parse_header (ivf_header o c ++ rest) = Ok (header_read o c, rest).
+Proof.
+  intros o c rest (Hw & Hh & Hn & Hd & Hn0 & Hd0) Hc.
+  unfold parse_header.
+  replace 32 with (N.of_nat (length (ivf_header o c))) by (rewrite header_length; reflexivity).
+  rewrite read_full_app.
+  unfold ivf_header, sig_dkif, header_read.
+  rewrite !le_bytes_2, !le_bytes_4.
+  destruct (o_codec o); cbn [fourcc app sub firstn skipn Nat.sub].
+  all: rewrite ?le_val_2, ?le_val_4 by (assumption || reflexivity).
+  all: cbn [h_den h_num].
+  all: apply N.eqb_neq in Hn0, Hd0; rewrite Hn0, Hd0; reflexivity.
+Qed.
+
+Definition read_back (o : opts) (f : frec) : rframe :=
+  mkRframe (f_bytes f) (N.of_nat (length (f_bytes f))) (u64 (f_pts f * o_den o) / o_num o).
+
+Lemma sub_app_l : forall (a b : list N) j, length a = j -> sub (a ++ b) 0 j = a.
+Proof.
+  intros a b j <-. unfold sub. cbn [skipn]. rewrite Nat.sub_0_r. apply firstn_app_exact.
+Qed.
+Lemma sub_app_r : forall (a b : list N) i j,
+  length a = i -> length b = (j - i)%nat -> sub (a ++ b) i j = b.
+Proof.
+  intros a b i j <- Hb. unfold sub. rewrite skipn_app_exact, <- Hb. apply firstn_all.
+Qed.
+
+Lemma frame_header_length : forall len pts, length (frame_header len pts) = 12%nat.
+Proof. intros. unfold frame_header. rewrite app_length, !le_bytes_length. reflexivity. Qed.
+
+Lemma parse_frame_written : forall o f rest,
+  o_num o <> 0 ->
+  N.of_nat (length (f_bytes f)) < 4294967296 -> f_pts f < 2 ^ 64 ->
+  parse_next_frame (o_den o) (o_num o) (frame_record f ++ rest) = Ok (read_back o f, rest).
+Proof.
+  intros o f rest Hn Hlen Hpts.
+  unfold parse_next_frame, frame_record. rewrite <- app_assoc.
+  replace 12 with (N.of_nat (length (frame_header (N.of_nat (length (f_bytes f))) (f_pts f))))
+    by (rewrite frame_header_length; reflexivity).
+  rewrite read_full_app.
+  unfold frame_header.
+  rewrite !sub_app_l by apply le_bytes_length.
+  rewrite !sub_app_r by (rewrite le_bytes_length; reflexivity).
+  assert (Hu : u32 (N.of_nat (length (f_bytes f))) = N.of_nat (length (f_bytes f))).
+  { unfold u32. apply N.mod_small. exact Hlen. }
+  rewrite !Hu. rewrite !(le_roundtrip 4) by exact Hlen. rewrite !(le_roundtrip 8) by exact Hpts.
+  unfold pts_to_timestamp. apply N.eqb_neq in Hn. rewrite Hn.
+  rewrite read_full_app. reflexivity.
+Qed.
+
+Lemma read_frames_written : forall o fs fuel,
+  o_num o <> 0 ->
+  Forall (fun f => N.of_nat (length (f_bytes f)) < 4294967296) fs ->
+  Forall (fun f => f_pts f < 2 ^ 64) fs ->
+  (length fs < fuel)%nat ->
+  read_frames fuel (o_den o) (o_num o) (records fs) = (map (read_back o) fs, "EOF"%string).
+Proof.
+  intros o fs. induction fs as [|f fs IH]; intros fuel Hn Hl Hp Hfuel.
+  - destruct fuel as [|fuel]; [inversion Hfuel|]. reflexivity.
+  - destruct fuel as [|fuel]; [inversion Hfuel|].
+    inversion Hl as [|? ? Hl1 Hl2]; subst. inversion Hp as [|? ? Hp1 Hp2]; subst.
+    cbn [read_frames records flat_map]. fold (records fs).
+    rewrite parse_frame_written by assumption.
+    rewrite IH; [reflexivity | assumption | assumption | assumption | cbn [length] in Hfuel; lia].
+Qed.
+
+Lemma records_length : forall fs, (length fs <= length (records fs))%nat.
+Proof.
+  induction fs as [|f fs IH]; [apply Nat.le_refl|].
+  cbn [records flat_map length]. fold (records fs).
+  rewrite app_length. unfold frame_record. rewrite app_length, frame_header_length. lia.
+Qed.
+
+Lemma read_file_written : forall o c fs,
+  opts_ok o -> c < 4294967296 ->
+  Forall (fun f => N.of_nat (length (f_bytes f)) < 4294967296) fs ->
+  Forall (fun f => f_pts f < 2 ^ 64) fs ->
+  read_file (ivf_header o c ++ records fs)
+  = Ok (header_read o c, map (read_back o) fs, "EOF"%string).
+Proof.
+  intros o c fs Hok Hc Hl Hp. unfold read_file.
+  rewrite parse_header_written by assumption.
+  cbn [header_read h_den h_num].
+  rewrite read_frames_written; [reflexivity | apply Hok | assumption | assumption |].
+  pose proof (records_length fs). lia.
+Qed.
+
+Lemma u32_lt : forall x, u32 x < 4294967296.
+Proof. intros x. unfold u32. apply N.mod_lt. discriminate. Qed.
+
+(* headline: whatever the packet stream, the file reads back as the frames
+   handed to writeFrame *)
+Lemma roundtrip : forall o ps seekable,
+  opts_ok o ->
+  Forall (fun f => N.of_nat (length (f_bytes f)) < 4294967296) (frames_of o ps) ->
+  read_file (written o ps seekable)
+  = Ok (header_read o (count_field seekable (fst (run_packets o (init_state o) ps))),
+        map (read_back o) (frames_of o ps), "EOF"%string).
+Proof.
+  intros o ps seekable Hok Hl. unfold written, frames_of in *.
+  pose proof (run_packets_inv o ps (init_state o) (winv_init o)) as Hinv.
+  rewrite (close_shape o seekable _ Hinv).
+  apply read_file_written; try assumption.
+  - unfold count_field. destruct seekable; [apply u32_lt | reflexivity].
+  - apply Hinv.
+Qed.
+
+Lemma u32_u64 : forall n, u32 (u64 n) = u32 n.
+Proof.
+  intros n. unfold u32, u64.
+  change 18446744073709551616 with (4294967296 * 4294967296).
+  rewrite N.mod_mul_r by discriminate.
+  rewrite N.mul_comm, N.mod_add by discriminate. apply N.mod_mod. discriminate.
+Qed.
+
+Lemma count_field_frames : forall o ps seekable,
+  count_field seekable (fst (run_packets o (init_state o) ps))
+  = if seekable then N.of_nat (length (frames_of o ps)) mod 4294967296 else header_count_placeholder.
+Proof.
+  intros o ps seekable. unfold count_field, frames_of.
+  destruct seekable; [| reflexivity].
+  destruct (run_packets_inv o ps (init_state o) (winv_init o)) as (_ & Hc & _).
+  rewrite Hc. apply u32_u64.
+Qed.
+
+Lemma roundtrip_header : forall o ps seekable,
+  opts_ok o ->
+  Forall (fun f => N.of_nat (length (f_bytes f)) < 4294967296) (frames_of o ps) ->
+  read_file (written o ps seekable)
+  = Ok (header_read o (if seekable then N.of_nat (length (frames_of o ps)) mod 4294967296
+                       else header_count_placeholder),
+        map (read_back o) (frames_of o ps), "EOF"%string).
+Proof.
+  intros o ps seekable Hok Hl. rewrite roundtrip by assumption.
+  rewrite count_field_frames. reflexivity.
 Qed.
